@@ -21,6 +21,7 @@ let op_of = function
   | "add" | "sum" | "cumsum" -> Z.add
   | "multiply" | "prod" | "cumprod" -> Z.mul
   | "subtract" -> Z.sub
+  | "lin" -> (fun acc x -> Z.modulo (Z.add (Z.mul (z_of_int 3) acc) x) (z_of_int 1000003))
   | "maximum" | "amax" -> Z.max
   | "minimum" | "amin" -> Z.min
   | s -> failwith ("op " ^ s)
